@@ -15,8 +15,8 @@ Inductive http_answer :=
 | ScriptPath                   (* accepted Numscript request: executed by the machine, not modelled here (C22..C28) *)
 | Answered (r : result).       (* the controller's answer: 200 or a business error *)
 
-Definition handle_v2_create (pt : string -> option Z) (f : features) (now : Z) (s : state) (body : ajson) (ik : str) (dry : bool) : state * http_answer :=
-  match decode_v2_tx pt body with
+Definition handle_v2_create (pt : string -> option Z) (sp : Z -> Z -> string) (f : features) (now : Z) (s : state) (body : ajson) (ik : str) (dry : bool) : state * http_answer :=
+  match decode_v2_tx pt sp body with
   | ClientError e => (s, Rejected e)
   | Panic => (s, Crashed)
   | Ok r =>
@@ -31,12 +31,12 @@ Definition handle_v2_create (pt : string -> option Z) (f : features) (now : Z) (
   end.
 
 (* every answer other than a success leaves all seven tables as they were *)
-Theorem handle_error_no_effect pt f now s body ik dry s' a :
-  handle_v2_create pt f now s body ik dry = (s', a) ->
+Theorem handle_error_no_effect pt sp f now s body ik dry s' a :
+  handle_v2_create pt sp f now s body ik dry = (s', a) ->
   match a with Answered (ROk _ _ _) => True | _ => tables s' = tables s end.
 Proof.
   unfold handle_v2_create. intros H.
-  destruct (decode_v2_tx pt body) as [r|e|]; try (injection H as H1 H2; subst; reflexivity).
+  destruct (decode_v2_tx pt sp body) as [r|e|]; try (injection H as H1 H2; subst; reflexivity).
   destruct (r_postings r) as [|p ps]; [injection H as H1 H2; subst; reflexivity|].
   match type of H with context [step ?f ?n ?s ?o] => destruct (step f n s o) as [s1 res|] eqn:E end.
   - injection H as H1 H2. subst. destruct res as [l t h|e]; [exact I|]. exact (step_error_no_trace _ _ _ _ _ _ E).
@@ -44,11 +44,11 @@ Proof.
 Qed.
 
 (* a client error is decided before the controller is called: the state itself (sequences included) is untouched *)
-Theorem handle_rejected_identity pt f now s body ik dry s' e :
-  handle_v2_create pt f now s body ik dry = (s', Rejected e) -> s' = s /\ decode_v2_tx pt body = ClientError e.
+Theorem handle_rejected_identity pt sp f now s body ik dry s' e :
+  handle_v2_create pt sp f now s body ik dry = (s', Rejected e) -> s' = s /\ decode_v2_tx pt sp body = ClientError e.
 Proof.
   unfold handle_v2_create. intros H.
-  destruct (decode_v2_tx pt body) as [r|e'|]; try discriminate.
+  destruct (decode_v2_tx pt sp body) as [r|e'|]; try discriminate.
   - destruct (r_postings r) as [|p ps]; [discriminate|].
     match type of H with context [step ?f ?n ?s ?o] => destruct (step f n s o) as [s1 res|] end; discriminate.
   - injection H as H1 H2. subst. split; reflexivity.
